@@ -26,7 +26,7 @@ from ..pool import HASH_CLASSES
 
 PROP = "C07"
 LEVEL = "exploration"
-COUNTS = {"quick": 320, "thorough": 8000}
+COUNTS = {"quick": 500, "thorough": 12000}
 WALL = {"quick": 170, "thorough": 3300}
 RULE = (
     "scenario = 1-4 pool documents, scan or fix, seeded rule selection (default / all rules incl. default-disabled / one rule alone / "
